@@ -251,4 +251,53 @@ func runC14(e *Engine, r *Report) {
 	ruleDeferredErr(e, r, 1, "internal/rsm")
 	// io.Writer implementations on the snapshot path only read what they are given (generic.go)
 	ruleWriterParam(e, r, 3, "internal/rsm", "internal/utils/dio", "internal/transport", "")
+	// ---- the compression type recorded in a snapshot file's header is the
+	// one the payload is really written with: a writer created with a
+	// non-constant type is wrapped, in the same function, by the compressor
+	// selected from the same value; a writer that is written to directly
+	// (shrunk file) declares NoCompression. The reader picks its
+	// decompressor from the header.
+	if nsw := r.need("internal/rsm.NewSnapshotWriter"); nsw != nil {
+		noComp := e.Const("raftpb", "NoCompression")
+		newComp := e.Func("internal/utils/dio.NewCompressor")
+		ctField := e.Field("internal/rsm", "SSMeta", "CompressionType")
+		n := 0
+		for _, s := range e.CallerSites(nsw) {
+			if !e.IsLive(outermost(s.Parent())) {
+				continue
+			}
+			n++
+			args := s.Common().Args
+			ct := args[1]
+			key := "NewSnapshotWriter in " + fname(s.Parent())
+			if noComp != nil && constV(noComp)(ct) {
+				r.ok("CONST-header-compression", key+" (NoCompression, raw payload)", e.ipos(s), "the payload is written uncompressed and the header says so")
+				continue
+			}
+			// same function wraps with the compressor chosen from the same source
+			okw := false
+			src := func(v ssa.Value) bool { return sameSizeExpr(stripConv(v), stripConv(ct)) || (ctField != nil && fieldV(ctField)(v) && fieldV(ctField)(ct)) }
+			for _, cs := range e.SitesIn(s.Parent(), newComp) {
+				if e.dependsOn(cs.Common().Args[0], src, 1) {
+					okw = true
+				}
+			}
+			r.check(okw, "CONST-header-compression", key+" (header type == compressor type)", e.ipos(s),
+				"the header's compression type and the compressor wrapped around the writer come from the same value",
+				"the snapshot file header declares compression type "+e.describeValue(ct)+" but the payload is not written through the compressor selected by that value: a reader that honours the header cannot decode the file")
+		}
+		r.floor("CONST-header-compression", n, 2)
+		// reader side: the decompressor is chosen from the header
+		if ld := e.Func("(*dragonboat.snapshotter).Load"); ld != nil {
+			hdrCT := e.Field("raftpb", "SnapshotHeader", "CompressionType")
+			newDec := e.Func("internal/utils/dio.NewDecompressor")
+			okd := false
+			for _, cs := range e.SitesIn(ld, newDec) {
+				if e.dependsOn(cs.Common().Args[0], func(v ssa.Value) bool { return fieldV(hdrCT)(v) }, 1) {
+					okd = true
+				}
+			}
+			r.check(okd, "CONST-header-compression", "snapshotter.Load picks the decompressor from the file header", e.pos(ld.Pos()), "reader honours the header", "snapshotter.Load no longer selects the decompressor from the header's compression type")
+		}
+	}
 }
